@@ -227,6 +227,7 @@ PROPS['C06'] = dict(level=MC, rule=RULE_IDNA, assumptions=ASSUME_IDNA, models=[M
 PROPS['C16'] = dict(level=MC, rule=RULE_IDNA, assumptions=ASSUME_IDNA, models=[M_IDNA, M_IDNA_WIDE],
                     workloads=[WI('structured-equivalent-pairs', gen_idna.w_structured_eqv), WI('ignored-and-folded-pairs', gen_idna.w_ignored_folded),
                                WI('canonical-decomposables-sweep', gen_idna.w_decomposable_sweep),
+                               WI('case-fold-pairs', gen_idna.w_case_fold_pairs),
                                WI('equivalent-pairs', gen_idna.w_equivalent, 4000, 150000),
                                WI('laws-arbitrary-code-points', gen_idna.w_laws, 4000, 150000),
                                W_IDNA_WPT, W_IDNA_VEC, W_IDNA_REPLAY,
